@@ -1176,10 +1176,13 @@ def _run(world: World, plan):
                 lk['sent'].append(info)
                 link_write(lk, data, [(len(data), info)])
         t_probe = loop.time()
-        while loop.time() < t_probe + PROBE_BOUND + 6.0:
+        # (a handler that disconnects the child that never reads waits for DISCONNECT_TIMEOUT (5 s) inside the reader
+        # of the link the message came from: delivery on that link is late by that much, not lost)
+        bound = PROBE_BOUND + (6.0 if plan.get('child_stall') else 0.0)
+        while loop.time() < t_probe + bound + 6.0:
             await asyncio.sleep(0.25)
             if all(lk['probe'] is None or lk['probe'].get('arrived') is not None for lk in L.values()) \
-                    and loop.time() >= t_probe + PROBE_BOUND:
+                    and loop.time() >= t_probe + bound:
                 break
         # bad first frames: the ports still accept
         if badfirst:
